@@ -129,3 +129,26 @@ From Akita Require Import C13.Exec C13.Link.
 Theorem c13_model_agreement_implies_property : forall c, check_case c = true -> holds_on c = true.
 Proof. exact check_implies_holds. Qed.
 Print Assumptions c13_model_agreement_implies_property.
+
+(** Non-vacuity of the hypotheses of clauses 1 and 2. *)
+Example c13_no_later_nonvacuous :
+  exists s0 evs0 s1 e s2 evs2,
+    exec init [Req (WakeAt 100); Adv 30] = Some (s0, evs0) /\
+    step s0 (Req (WakeAt 60)) = Ok s1 e /\
+    exec s1 [Req (WakeAt 80); Adv 55; Pop; Pop] = Some (s2, evs2) /\
+    req_time (WakeAt 60) s0 = 60 /\ runs evs2 = [60; 100].
+Proof. do 6 eexists. split; [vm_compute; reflexivity|]. split; [vm_compute; reflexivity|]. split; [vm_compute; reflexivity|]. vm_compute. repeat split. Qed.
+
+Example c13_notify_nonvacuous :
+  exists s0 evs0 s1 e s2 evs2,
+    exec init [Req (WakeAt 100); Adv 30] = Some (s0, evs0) /\
+    step s0 (Req NotifyRecv) = Ok s1 e /\
+    exec s1 [Req NotifyPortFree; Pop; Adv 40] = Some (s2, evs2) /\
+    now s0 = 30 /\ runs evs2 = [30].
+Proof. do 6 eexists. split; [vm_compute; reflexivity|]. split; [vm_compute; reflexivity|]. split; [vm_compute; reflexivity|]. vm_compute. repeat split. Qed.
+
+Example c13_link_nonvacuous :
+  let c := mk_case [mk_comp [EAdv 3; EReq (WakeAt 9) 3 (OSched 9); EReq NotifyRecv 3 (OSched 3); ERun 3;
+                             EReq (WakeAt 20) 3 (OSched 20); ERun 9; ERun 20]] true in
+  check_case c = true /\ holds_on c = true.
+Proof. vm_compute. split; reflexivity. Qed.
